@@ -3,12 +3,14 @@ package main
 // Transform family (C18): resolved state -> DID resolution result.
 
 import (
+	"bufio"
 	"crypto/ed25519"
 	"crypto/sha256"
 	"encoding/base64"
 	"encoding/json"
 	"fmt"
 	"math/big"
+	"math/rand"
 	"os"
 	"reflect"
 	"sync"
@@ -815,4 +817,111 @@ func trEdKey(pool *KeyPool, id int) *Key {
 	fatalf("no Ed25519 key with a leading zero byte found")
 
 	return nil
+}
+
+// ---------------------------------------------------------------------------------------------
+// trace driver: random operation lists through the real transformer, logged for TransformTrace.tla
+
+func transformTrace(args []string) {
+	fl := parseFlags(args)
+	seed := int64(fl.int("seed", envInt("VERIF_SEED", 1)))
+	n := fl.int("n", 500)
+	r := rand.New(rand.NewSource(seed))
+
+	f, err := os.Create(fl.str("o", "transform_trace.ndjson"))
+	if err != nil {
+		fatalf("%v", err)
+	}
+
+	defer f.Close()
+
+	w := bufio.NewWriter(f)
+	defer w.Flush()
+
+	enc := json.NewEncoder(w)
+	tr := didtransformer.New(didtransformer.WithIncludePublishedOperations(true), didtransformer.WithIncludeUnpublishedOperations(true))
+
+	type slot struct {
+		T   uint64 `json:"t"`
+		N   uint64 `json:"n"`
+		Ref int    `json:"ref,omitempty"`
+	}
+
+	for h := 0; h < n; h++ {
+		published := r.Intn(2) == 0
+		k := r.Intn(13)
+
+		// times and numbers from a small, a medium and a large range (ties are frequent in the small one)
+		span := []int{3, 40, 2000000000}[r.Intn(3)]
+		logged := []map[string]interface{}{}
+
+		var ops []*operation.AnchoredOperation
+
+		used := map[[3]uint64]bool{}
+
+		for i := 0; i < k; i++ {
+			s := slot{T: uint64(r.Intn(span)), N: uint64(r.Intn(span)), Ref: 1 + r.Intn(4)}
+
+			// (two operations of one reference in one slot: which one survives the de-duplication is not determined)
+			if published && used[[3]uint64{s.T, s.N, uint64(s.Ref)}] {
+				continue
+			}
+
+			used[[3]uint64{s.T, s.N, uint64(s.Ref)}] = true
+			logged = append(logged, map[string]interface{}{"t": s.T, "n": s.N, "ref": s.Ref})
+			ops = append(ops, &operation.AnchoredOperation{Type: operation.TypeUpdate, UniqueSuffix: "s", OperationRequest: []byte(fmt.Sprintf(`{"i":%d}`, len(ops))),
+				TransactionTime: s.T, TransactionNumber: s.N, CanonicalReference: fmt.Sprintf("ref%d", s.Ref)})
+		}
+
+		// (the transformer sorts the list it is given in place: the driver keeps its own order for the look-up below)
+		orig := append([]*operation.AnchoredOperation(nil), ops...)
+
+		rm := &protocol.ResolutionModel{Doc: document.Document{}}
+		if published {
+			rm.PublishedOperations = ops
+		} else {
+			rm.UnpublishedOperations = ops
+		}
+
+		res, err := tr.TransformDocument(rm, protocol.TransformationInfo{"id": "did:sidetree:abc", "published": true})
+		if err != nil {
+			fatalf("transform: %v", err)
+		}
+
+		ops = orig
+
+		md := generic(res.DocumentMetadata).(map[string]interface{})
+		method, _ := md["method"].(map[string]interface{})
+
+		name := "unpublishedOperations"
+		if published {
+			name = "publishedOperations"
+		}
+
+		list, _ := method[name].([]interface{})
+		reported := []map[string]interface{}{}
+
+		for _, x := range list {
+			m, _ := x.(map[string]interface{})
+			t, _ := m["transactionTime"].(float64)
+			nn, _ := m["transactionNumber"].(float64)
+
+			if !published {
+				// unpublished operations do not report a transaction number: recover it from the request
+				var rq struct {
+					I int `json:"i"`
+				}
+
+				raw, _ := b64stdDecode(m["operation"])
+				_ = json.Unmarshal(raw, &rq)
+				nn = float64(ops[rq.I].TransactionNumber)
+			}
+
+			reported = append(reported, map[string]interface{}{"t": uint64(t), "n": uint64(nn)})
+		}
+
+		_ = enc.Encode(map[string]interface{}{"event": "ops", "ops": logged, "published": published, "reported": reported})
+	}
+
+	writeJSON(os.Stdout, map[string]interface{}{"lists": n})
 }
